@@ -4,7 +4,8 @@ Part A (state round trip): for every flow type (HTTP, HTTP+WebSocket, TCP, UDP, 
 serialised field in turn takes every value of its small domain on the live flow objects
 (`vmc.refs.flowgen.deviations`), then every pair of such deviations (quick: pairs of the
 interacting "core" fields; thorough: all pairs); every ordered sequence of 1-3 flows from a
-pool of mixed flows.  Each flow is written with the real FlowWriter and read with the real
+pool of mixed flows; every history of save attempts (same writer, same process) in which some
+saves fail on an unserialisable value and others succeed.  Each flow is written with the real FlowWriter and read with the real
 FlowReader; `get_state()` before and after are compared with a strictly typed comparison,
 and so is an independent attribute-by-attribute observation of the live objects (a defect
 on the get_state side cannot cancel itself out).
@@ -19,6 +20,7 @@ FlowReadException; any other exception (caught as BaseException) violates `reade
 """
 from __future__ import annotations
 
+import io
 import itertools
 import math
 import os
@@ -172,6 +174,100 @@ def seq_case(case, t: Tally):
         t.judge("loaded_flow_equals_saved_flow", all(G.canon(a) == G.canon(b) for a, b in zip(wanto, goto)), feats, case, None,
                 [G.diff(a, b)[:2] for a, b in zip(wanto, goto) if G.canon(a) != G.canon(b)][:2])
     t.case(case if len(flows) == 3 else None, nontrivial=True, key=case)
+
+
+# ---------------------------------------------------------------------------
+# part A': write histories.  Several save attempts through one FlowWriter into one file, in one process;
+# some attempts fail because the flow holds a value the format cannot serialise.  Whatever the history,
+# the file must hold exactly the flows whose save succeeded, in order, with identical state.
+
+
+class Unserialisable:
+    def __repr__(self):
+        return "<unserialisable>"
+
+
+def _bad_meta(f, md):
+    f.metadata = md
+
+
+FAILING = {
+    # kind -> (flow type, edit that makes saving the flow fail)
+    "meta-top": ("http", lambda f: _bad_meta(f, {"bad": Unserialisable()})),
+    "meta-first-of-many": ("http", lambda f: _bad_meta(f, {"bad": Unserialisable(), "ok": [1, 2, "x"], "ok2": {"a": b"b"}})),
+    "meta-last-of-many": ("ws", lambda f: _bad_meta(f, {"ok": [1, 2, "x"], "ok2": {"a": b"b"}, "bad": Unserialisable()})),
+    "meta-deep": ("dns", lambda f: _bad_meta(f, {"a": {"b": [1, "x", {"c": [Unserialisable()]}], "d": "e"}})),
+    "meta-set": ("tcp", lambda f: _bad_meta(f, {"s": {1, 2}})),
+    "meta-dict-key": ("udp", lambda f: _bad_meta(f, {"k": {Unserialisable(): 1}})),
+    "comment": ("http", lambda f: setattr(f, "comment", Unserialisable())),
+    "message-content": ("tcp", lambda f: setattr(f.messages[-1], "content", Unserialisable())),
+    "ws-message-content": ("ws", lambda f: setattr(f.websocket.messages[0], "content", Unserialisable())),
+}
+FAIL_KINDS = list(FAILING)
+
+
+def hist_symbols():
+    """alphabet of one save attempt: a pool flow (succeeds) or a failing flow"""
+    return [["good", i] for i in range(len(seq_pool()))] + [["bad", k] for k in FAIL_KINDS]
+
+
+def hist_case(case, t: Tally):
+    from mitmproxy.io import FlowWriter
+
+    pool = seq_pool()
+    hist = case["h"]
+    shape = "".join("g" if a[0] == "good" else "b" for a in hist)
+    first_bad = next((a[1] for a in hist if a[0] == "bad"), "-")
+    feats = {"history": shape, "fail_kind": first_bad, "writer": "file" if case.get("real") else "bytesio"}
+    if case.get("real"):
+        os.makedirs(SCRATCH, exist_ok=True)
+        p = os.path.join(SCRATCH, "hist-%d.mitm" % os.getpid())
+        fo = open(p, "wb")
+    else:
+        fo = io.BytesIO()
+    w = FlowWriter(fo)
+    saved = []
+    for n, (what, arg) in enumerate(hist):
+        if what == "good":
+            f = G.build(pool[arg][0], pool[arg][1], n=n + 1)
+        else:
+            f = G.base(FAILING[arg][0], n=n + 1)
+            FAILING[arg][1](f)
+        try:
+            w.add(f)
+            raised = None
+        except KeyboardInterrupt:
+            raise
+        except BaseException as e:  # noqa: B036
+            raised = "%s: %s" % (type(e).__name__, str(e)[:120])
+        if what == "good":
+            if t.judge("save_succeeds", raised is None, feats, case, "flow written", raised):
+                saved.append(f)
+        elif raised is None:
+            t.note("saving a flow with an unserialisable value did not raise")
+            saved = None
+            break
+    if case.get("real"):
+        fo.close()
+        with open(p, "rb") as fi:
+            r = G.read(fi)
+        os.unlink(p)
+    else:
+        r = G.read_bytes(fo.getvalue())
+    if saved is not None:
+        judge_loaded(r, saved, feats, case, t)
+    t.case(case if shape == "bg" and len(t.samples) < 3 else None, nontrivial="bg" in shape, key=case)
+
+
+def judge_loaded(r, flows, feats, case, t: Tally):
+    want = [f.get_state() for f in flows]
+    ok = t.judge("load_yields_the_saved_flows", r.end == "clean" and len(r.flows) == len(flows), feats, case,
+                 [len(flows), "clean"], [len(r.flows), r.end, r.exc, r.msg[:200]])
+    if ok:
+        got = [f.get_state() for f in r.flows]
+        t.judge("order_kept", [s["id"] for s in got] == [s["id"] for s in want], feats, case, [s["id"] for s in want], [s["id"] for s in got])
+        same = all(G.canon(a) == G.canon(b) for a, b in zip(want, got))
+        t.judge("state_roundtrip", same, feats, case, None, [G.diff(a, b)[:2] for a, b in zip(want, got) if G.canon(a) != G.canon(b)][:2])
 
 
 # ---------------------------------------------------------------------------
@@ -330,6 +426,8 @@ def one(case, t: Tally):
         rt_case(case, t)
     elif k == "seq":
         seq_case(case, t)
+    elif k == "hist":
+        hist_case(case, t)
     else:
         total_case(case, t)
 
@@ -365,6 +463,17 @@ def seq_cases(maxlen):
     for ln in range(1, maxlen + 1):
         for s in itertools.product(range(n), repeat=ln):
             out.append({"k": "seq", "s": list(s), "real": ln == maxlen or ln == 1})
+    return out
+
+
+def hist_cases(maxlen):
+    """every history of 1..maxlen save attempts that contains at least one failing attempt"""
+    syms = hist_symbols()
+    out = []
+    for ln in range(1, maxlen + 1):
+        for h in itertools.product(syms, repeat=ln):
+            if any(a[0] == "bad" for a in h):
+                out.append({"k": "hist", "h": [list(a) for a in h], "real": h[-1][0] == "good" and ln == maxlen})
     return out
 
 
@@ -462,8 +571,9 @@ def run(ctx):
 
     singles, pairs = rt_cases(thorough)
     seqs = seq_cases(seqlen)
-    cases = singles + pairs + seqs
-    ctx.log("round trip: %d single-deviation flows, %d two-deviation flows, %d sequences" % (len(singles), len(pairs), len(seqs)))
+    hists = hist_cases(seqlen)
+    cases = singles + pairs + seqs + hists
+    ctx.log("round trip: %d single-deviation flows, %d two-deviation flows, %d sequences, %d write histories with failing saves" % (len(singles), len(pairs), len(seqs), len(hists)))
 
     total = []
     for b in bases:
@@ -506,6 +616,8 @@ def run(ctx):
         "fields_per_type": {ft: len({d.field for d in G.deviations(ft)}) for ft in G.FTYPES},
         "max_deviations": 2, "pair_space": "all pairs on different fields" if thorough else "pairs of core (interacting) fields",
         "sequence_pool": len(seq_pool()), "max_sequence_length": seqlen,
+        "write_histories": "every sequence of <=%d save attempts over %d succeeding and %d failing flows (unserialisable value at %s) with >=1 failure" % (
+            seqlen, len(seq_pool()), len(FAIL_KINDS), ", ".join(FAIL_KINDS)),
         "base_files": bases, "substitution_values": "all 256 at structural bytes of the 6 small base files, 14-symbol alphabet elsewhere" if thorough else "14-symbol alphabet at every byte", "short_string_alphabet": [s.decode("latin1") for s in SUB_QUICK],
         "short_string_maxlen": strlen, "wrong_values": len(WRONG), "state_mutation_pairs": bool(thorough),
         "versions_relabelled": len(VERSIONS) + len(JUNK_VERSIONS), "nesting_depths": [50, 200, 5000],
